@@ -110,6 +110,170 @@ def as_ge1(rel, polarity: bool):
 
 
 # ============================================================================= R1
+def _eval_numeric(t, env):
+    """floating-point value (numpy semantics) of an extracted partition term"""
+    import numpy as np
+
+    if isinstance(t, sp.Symbol):
+        if t in env:
+            return env[t]
+        raise AnalysisError(f"free symbol {t} in the partition term")
+    if isinstance(t, (sp.Integer, int)):
+        return int(t)
+    if isinstance(t, sp.Rational):
+        return int(t.p) / int(t.q)
+    if isinstance(t, sp.Float):
+        return float(t)
+    h = head_name(t)
+    if h.startswith("call_"):
+        pos = [_eval_numeric(a, env) for a in positional_args(t)[1:]] if h in ("call_diff", "call_linspace", "call_arange", "call_floor", "call_ceil", "call_round", "call_rint", "call_cumsum") else None
+        if h == "call_diff":
+            return np.diff(pos[0])
+        if h == "call_linspace":
+            kw = {}
+            ep = kwarg_term(t, "endpoint")
+            if ep is not None:
+                kw["endpoint"] = bool(ep == sp.true)
+            return np.linspace(*pos, **kw)
+        if h == "call_arange":
+            return np.arange(*pos)
+        if h == "call_cumsum":
+            return np.cumsum(pos[0])
+        if h in ("call_floor", "call_ceil", "call_round", "call_rint"):
+            return getattr(np, h[5:])(pos[0])
+        if h == "call_astype" and t.args[1] == sp.Symbol("int"):
+            return np.asarray(_eval_numeric(t.args[0], env)).astype(int)
+        raise AnalysisError(f"`{h[5:]}` in the partition term is not modelled")
+    if isinstance(t, sp.Add):
+        out = 0
+        for a in t.args:
+            out = out + _eval_numeric(a, env)
+        return out
+    if isinstance(t, sp.Mul):
+        # keep the association the source uses as far as sympy preserves it: numerator factors first, one division
+        numer, denom = [], []
+        for a in t.args:
+            if isinstance(a, sp.Pow) and a.exp == -1:
+                denom.append(_eval_numeric(a.base, env))
+            else:
+                numer.append(_eval_numeric(a, env))
+        arrays = [x for x in numer if hasattr(x, "shape") and getattr(x, "shape", ()) != ()]
+        scal = [x for x in numer if x not in arrays] if not arrays else [x for x in numer if not (hasattr(x, "shape") and getattr(x, "shape", ()) != ())]
+        if env.get("__assoc__") == "array-first":
+            # (array * numerators) / denominators
+            out = 1
+            for x in arrays + scal:
+                out = out * x
+            for x in denom:
+                out = out / x
+            return out
+        sc = 1.0
+        for x in scal:
+            sc = sc * x
+        for x in denom:
+            sc = sc / x
+        out = sc
+        for x in arrays:
+            out = x * out
+        return out
+    if isinstance(t, sp.Pow):
+        return _eval_numeric(t.base, env) ** _eval_numeric(t.exp, env)
+    raise AnalysisError(f"term `{t}` in the partition formula is not modelled")
+
+
+def _partition_witness(t, num, chunks, bound: int = 96, assoc: str = "scalar-first"):
+    import numpy as np
+
+    for n0 in range(1, bound + 1):
+        for c0 in range(1, n0 + 1):
+            try:
+                sizes = np.asarray(_eval_numeric(t, {num: n0, chunks: c0, "__assoc__": assoc}))
+            except AnalysisError:
+                raise
+            except Exception as e:  # noqa: BLE001
+                return n0, c0, [], f"evaluation fails with {type(e).__name__}: {e}"
+            sl = [int(x) for x in np.ravel(sizes)]
+            if len(sl) != c0:
+                return n0, c0, sl, f"{len(sl)} chunks instead of {c0}"
+            if sum(sl) != n0:
+                return n0, c0, sl, f"the sizes add up to {sum(sl)} instead of {n0} cells"
+            if min(sl) < 1:
+                return n0, c0, sl, "a chunk has no cells"
+    return None
+
+
+_NUMERIC_CALLS = {"arange", "linspace", "diff", "cumsum", "floor", "ceil", "round", "rint", "array", "asarray", "concatenate"}
+
+
+def _eval_ast_numeric(e: ast.AST, env: dict):
+    """value of an arithmetic / numpy expression of the partition function on concrete numbers, operation by operation
+    as written (numpy floating-point semantics); everything else is outside the grammar"""
+    import numpy as np
+
+    if isinstance(e, ast.Constant) and isinstance(e.value, (int, float)):
+        return e.value
+    if isinstance(e, ast.Name):
+        if e.id in env:
+            return env[e.id]
+        if e.id == "int":
+            return int
+        raise AnalysisError(f"name `{e.id}` in the partition formula")
+    if isinstance(e, ast.BinOp):
+        l, r = _eval_ast_numeric(e.left, env), _eval_ast_numeric(e.right, env)
+        ops = {ast.Add: lambda a, b: a + b, ast.Sub: lambda a, b: a - b, ast.Mult: lambda a, b: a * b, ast.Div: lambda a, b: a / b, ast.FloorDiv: lambda a, b: a // b, ast.Mod: lambda a, b: a % b, ast.Pow: lambda a, b: a**b}
+        if type(e.op) in ops:
+            return ops[type(e.op)](l, r)
+    if isinstance(e, ast.UnaryOp) and isinstance(e.op, ast.USub):
+        return -_eval_ast_numeric(e.operand, env)
+    if isinstance(e, (ast.List, ast.Tuple)):
+        return [_eval_ast_numeric(x, env) for x in e.elts]
+    if isinstance(e, ast.Call):
+        args = [_eval_ast_numeric(a, env) for a in e.args]
+        kw = {k.arg: _eval_ast_numeric(k.value, env) for k in e.keywords if k.arg}
+        if isinstance(e.func, ast.Attribute) and isinstance(e.func.value, ast.Name) and e.func.value.id == "np" and e.func.attr in _NUMERIC_CALLS:
+            return getattr(np, e.func.attr)(*args, **kw)
+        if isinstance(e.func, ast.Attribute) and e.func.attr == "astype" and len(args) == 1 and args[0] is int:
+            return np.asarray(_eval_ast_numeric(e.func.value, env)).astype(int)
+        if isinstance(e.func, ast.Name) and e.func.id in ("int", "round", "float", "len", "max", "min"):
+            return {"int": int, "round": round, "float": float, "len": len, "max": max, "min": min}[e.func.id](*args)
+    raise AnalysisError(f"`{ast.unparse(e)[:60]}` in the partition formula is outside the grammar of the numeric evaluation")
+
+
+def _partition_witness_ast(f: FuncInfo, num_name: str, chunks_name: str, bound: int = 96):
+    import numpy as np
+
+    body = strip_doc(f.node.body)
+    for n0 in range(1, bound + 1):
+        for c0 in range(1, n0 + 1):
+            env = {num_name: n0, chunks_name: c0}
+            sizes = None
+            try:
+                for st in body:
+                    if isinstance(st, ast.If):
+                        continue  # the guard refusing chunks > num (judged separately); admissible pairs fall through
+                    if isinstance(st, ast.Assign) and len(st.targets) == 1 and isinstance(st.targets[0], ast.Name):
+                        env[st.targets[0].id] = _eval_ast_numeric(st.value, env)
+                    elif isinstance(st, ast.Return) and st.value is not None:
+                        sizes = _eval_ast_numeric(st.value, env)
+                        break
+                    else:
+                        raise AnalysisError(f"statement `{type(st).__name__}` in the partition function")
+            except AnalysisError:
+                raise
+            except Exception as e:  # noqa: BLE001
+                return n0, c0, [], f"evaluation fails with {type(e).__name__}: {e}"
+            if sizes is None:
+                raise AnalysisError(f"{f.ref}: no return reached")
+            sl = [int(x) for x in np.ravel(np.asarray(sizes))]
+            if len(sl) != c0:
+                return n0, c0, sl, f"{len(sl)} chunks instead of {c0}"
+            if sum(sl) != n0:
+                return n0, c0, sl, f"the sizes add up to {sum(sl)} instead of {n0} cells"
+            if min(sl) < 1:
+                return n0, c0, sl, "a chunk has no cells"
+    return None
+
+
 def rule_chunk_partition(rep: Report, ix: Index) -> None:
     f = ix.func(MESH, "_subdivide")
     rep.saw("functions", f.ref)
@@ -121,6 +285,30 @@ def rule_chunk_partition(rep: Report, ix: Index) -> None:
     if len(rets) != 1:
         raise AnalysisError(f"{f.ref}: expected exactly one returning path, found {len(rets)}")
     t = rets[0].outcome[1]
+    # a partition that is not of the proved form np.diff(np.linspace(0, num, chunks + 1).astype(int)): the extracted
+    # term is evaluated in floating point for every admissible (num, chunks) up to a bound; a pair for which the
+    # sizes do not partition `num` is a violation with that witness; without a witness the form stays undecided
+    lin_form = (
+        isinstance(t, sp.Basic)
+        and head_name(t) == "call_diff"
+        and len(positional_args(t)) == 2
+        and head_name(positional_args(t)[1]) == "call_astype"
+        and head_name(positional_args(t)[1].args[0]) == "call_linspace"
+    )
+    if not lin_form and isinstance(t, sp.Basic):
+        # (evaluated on the syntax tree, which keeps the association of the floating-point operations)
+        witness = _partition_witness_ast(f, num_name, chunks_name, bound=96)
+        if witness is not None:
+            n0, c0, sizes, why = witness
+            rep.oblige("partition:endpoints-exact=>sum(sizes)=num", False, {"witness": [n0, c0], "sizes": sizes})
+            rep.violation(
+                "C17.chunk-partition",
+                f"{f.ref}::endpoints",
+                f"the chunk sizes `{t}` are not computed from the exact lattice np.linspace(0, {num_name}, {chunks_name} + 1); evaluated in floating point for {num_name}={n0}, {chunks_name}={c0} "
+                f"they are {sizes}: {why} (cells are lost or a chunk is empty, nothing raises)",
+                line=f.node.lineno,
+            )
+            return
     # grammar: np.diff( np.linspace(a, b, n).astype(int) )
     if not (isinstance(t, sp.Basic) and head_name(t) == "call_diff" and len(positional_args(t)) == 2):
         raise AnalysisError(f"{f.ref}: returned `{t}` is not `np.diff(...)`; partition grammar not recognised")
@@ -914,7 +1102,7 @@ def rule_to_subgrid(rep: Report, ix: Index) -> None:
     classes = [c for c in ix.subclasses(base, strict=True) if c.module.rel == LOCAL]
     rep.floor("boundary condition classes", len(classes), 15)
     overrides = {c.name for c in classes if c.methods.get("to_subgrid")}
-    rep.floor("to_subgrid overrides", len(overrides), 5)
+    rep.floor("to_subgrid overrides", len(overrides), 3)
     n_pairs = 0
     for c in classes:
         T = c.find_method("to_subgrid")
